@@ -28,6 +28,48 @@ unsafe impl std::alloc::GlobalAlloc for Counting {
 #[global_allocator]
 static GLOBAL: Counting = Counting;
 
+/// Tracing subscriber that enables every callsite and formats every recorded field into a null
+/// sink: the field expressions of litep2p's `tracing::…!` macros are evaluated (and their `Debug`
+/// / `Display` impls run) exactly as under `RUST_LOG=trace`, without producing output.
+/// `VERIF_TRACE=0` switches it off.
+struct EvalAll;
+
+struct NullFmt;
+
+impl std::fmt::Write for NullFmt {
+    fn write_str(&mut self, _: &str) -> std::fmt::Result {
+        Ok(())
+    }
+}
+
+struct NullVisit;
+
+impl tracing::field::Visit for NullVisit {
+    fn record_debug(&mut self, _: &tracing::field::Field, value: &dyn std::fmt::Debug) {
+        use std::fmt::Write as _;
+        let _ = write!(NullFmt, "{:?}", value);
+    }
+}
+
+impl tracing::Subscriber for EvalAll {
+    fn enabled(&self, _: &tracing::Metadata<'_>) -> bool {
+        true
+    }
+    fn new_span(&self, attrs: &tracing::span::Attributes<'_>) -> tracing::span::Id {
+        attrs.record(&mut NullVisit);
+        tracing::span::Id::from_u64(1)
+    }
+    fn record(&self, _: &tracing::span::Id, values: &tracing::span::Record<'_>) {
+        values.record(&mut NullVisit);
+    }
+    fn record_follows_from(&self, _: &tracing::span::Id, _: &tracing::span::Id) {}
+    fn event(&self, event: &tracing::Event<'_>) {
+        event.record(&mut NullVisit);
+    }
+    fn enter(&self, _: &tracing::span::Id) {}
+    fn exit(&self, _: &tracing::span::Id) {}
+}
+
 use std::io::{BufRead, Write};
 use std::panic::{catch_unwind, AssertUnwindSafe};
 
@@ -38,6 +80,9 @@ fn main() {
         return;
     }
     std::panic::set_hook(Box::new(|_| {}));
+    if std::env::var("VERIF_TRACE").map(|v| v != "0").unwrap_or(true) {
+        let _ = tracing::subscriber::set_global_default(EvalAll);
+    }
     let stdin = std::io::stdin();
     let stdout = std::io::stdout();
     let mut out = std::io::BufWriter::new(stdout.lock());
